@@ -404,6 +404,17 @@ def State.shouldBeInvalidated (s : State) (n : Nat) : Bool :=
   | some (.expert _) => false
   | some _ => (s.children n).any fun c => !(s.nodeD c).valid
 
+/-- repaired D1, `map_ref_projection_unknown`: a `map_ref` node that is re-linked while stale, and the
+`map_ref` parents that have just linked to it, must assume their projection changed -/
+def markMapRefUnknown : Nat → Nat → M Unit
+  | 0, _ => throw .outOfFuel
+  | fuel+1, n => do
+    match (← getNode n).kind? with
+    | some (.mapRef _ _) =>
+      modNode n fun x => { x with didChange := true }
+      for (p, _) in (← getNode n).parents do markMapRefUnknown fuel p
+    | _ => pure ()
+
 mutual
 
 /-- `became_necessary` -/
@@ -429,9 +440,7 @@ def becameNecessary (env : Env) : Nat → Nat → M Unit
     dassert (!(s.nodeD n).inRch) "node:became_necessary:not-in-rch"
     dassert (s.isNecessary n) "node:became_necessary:is-necessary"
     if s.isStale n then
-      match (s.nodeD n).kind? with
-      | some (.mapRef _ _) => modNode n fun x => { x with didChange := true }   -- repaired D1
-      | _ => pure ()
+      markMapRefUnknown fuel n                                                    -- repaired D1
       rchInsert n
     match (← getNode n).kind? with
     | some (.expert e) => observabilityChange e true
